@@ -171,7 +171,38 @@ func mkAdd(a, b string) string {
 	if oky && y.Sign() == 0 {
 		return a
 	}
+	// a + (k - a) = k  (absolute indices written relative to a slice offset)
+	if strings.HasPrefix(b, "(- ") && strings.HasSuffix(b, " "+a+")") {
+		if inner := b[3 : len(b)-len(a)-2]; balanced(inner) {
+			return inner
+		}
+	}
 	return "(+ " + a + " " + b + ")"
+}
+
+// balanced: s is one well-formed term (a token or a parenthesised term).
+func balanced(s string) bool {
+	if s == "" {
+		return false
+	}
+	depth := 0
+	for i, c := range s {
+		switch c {
+		case '(':
+			depth++
+		case ')':
+			depth--
+			if depth < 0 {
+				return false
+			}
+		case ' ':
+			if depth == 0 {
+				return false
+			}
+		}
+		_ = i
+	}
+	return depth == 0
 }
 
 func mkSub(a, b string) string {
